@@ -55,7 +55,7 @@ func run(c *vf.Ctx) {
 		}
 		sp := chain.Spec(l.net)
 		m := &chain.Model{Name: l.name, Spec: sp, Opt: opt, Menu: l.menu, StaleResolve: true,
-			H: vf.Pick[uint64](c, 7, 10), D: vf.Pick(c, 2, 4), K: vf.Pick(c, 2, 2), R: vf.Pick(c, 1, 1)}
+			H: vf.Pick[uint64](c, 7, 10), D: vf.Pick(c, 2, 3), K: vf.Pick(c, 2, 2), R: vf.Pick(c, 1, 1)}
 		if sp.Name == "mixed" {
 			m.SkipStart = 3
 			m.H += 3
